@@ -157,6 +157,7 @@ INJECT = [
     ("native/api_roundtrip.rs", "src/lib.rs", "verif_nat_api_roundtrip", ("native",)),
     ("native/column.rs", "src/mem_store/column.rs", "verif_nat_column", ("native",)),
     ("native/stringpack.rs", "src/stringpack.rs", "verif_nat_stringpack", ("native",)),
+    ("native/operators.rs", "src/engine/operators/mod.rs", "verif_nat_operators", ("native",)),
 ]
 
 
